@@ -145,6 +145,41 @@ def run(ctx):
                                     "keep": [k + 1 for k in keep], "out": o})
             tid += 1
             traces.append({"tid": tid, "meta": {"n": n, "kind": "stabilizer-mixtures"}, "states": states, "events": evs})
+    # partial traces through the STATE objects (DensityMatrix.partial_trace, QuantumState.partial_trace), 3 and 4 qubits,
+    # every subset in EVERY listing order (a keep list denotes a set: the factors come back in ascending qubit order)
+    from graphiq.backends.density_matrix.state import DensityMatrix
+    usable = [ws for ws in WEIGHT_SETS if all(sw is not None for _, sw in ws)]
+    for _ in range(4 if ctx.quick else 60):
+        n = rng.choice([3, 4, 4])
+        ws = rng.choice([w for w in usable if len(w) in (1, 2, 3)])
+        members = [sg.random_state_rows(rng, n) for _w in ws]
+        st, rho = make_state(rng, members, ws)
+        st["basis_of"] = members[0]
+        evs = []
+        lists = [list(k) for r in range(1, n) for k in itertools.permutations(range(n), r)]
+        if ctx.quick and len(lists) > 40:
+            lists = [k for k in lists if k != sorted(k)]          # the sorted ones are covered above
+            lists = rng.sample(lists, 36) + [[0, 3, 2], [0, 2, 1], [1, 0]]
+        for keep in lists:
+            if max(keep) >= n:
+                continue
+            for via in ("DensityMatrix.partial_trace", "QuantumState.partial_trace"):
+                try:
+                    if via.startswith("Density"):
+                        obj = DensityMatrix(rho.copy())
+                        obj.partial_trace(list(keep), [2] * n)
+                        red = obj.data
+                    else:
+                        qs = QuantumState(rho.copy(), rep_type="dm")
+                        qs.partial_trace(list(keep), [2] * n)
+                        red = qs.rep_data.data
+                    o = pj.pv_obs(np.asarray(red), len(keep))
+                except Exception as ex:
+                    o = {"err": type(ex).__name__, "bad": "", "n": len(keep), "vec": []}
+                evs.append({"fn": "partial_trace", "via": via, "a": 1, "keep": [k + 1 for k in sorted(keep)], "out": o})
+        tid += 1
+        traces.append({"tid": tid, "meta": {"n": n, "kind": "state-object partial traces, all listing orders"},
+                       "states": [st], "events": evs})
     # commuting pairs: two different weightings of ONE basis
     for _ in range(20 if ctx.quick else 400):
         n = rng.choice([1, 2, 3])
